@@ -69,7 +69,11 @@ def proc_node(p):
     k = "KFunction" if isinstance(p, sf.FortranFunction) else "KSubroutine"
     if isinstance(p, sf.FortranModuleProcedureImplementation):
         k = "KModProcImpl"
-    return container(k, p.name, _docs(p), codeunit_children(p))
+    args = [(a.name if isinstance(a, sf.FortranBase) else str(a)) for a in (getattr(p, "args", []) or [])]
+    rv = getattr(p, "retvar", None)
+    return container(k, p.name, _docs(p), codeunit_children(p), args=args,
+                     result=(rv.name if isinstance(rv, sf.FortranBase) else rv),
+                     attribs=list(getattr(p, "attribs", []) or []))
 
 
 def type_node(t):
